@@ -100,6 +100,23 @@ void AsmContext::init()
   bytes_per_address = 1;
   in_repeat         = 0;
 
+  // Everything a .<cpu> directive (set_cpu()) or .big_endian / .little_endian
+  // changed goes back to what the constructor set.  Otherwise the statements
+  // in front of the first such directive are assembled in pass 2 with the
+  // byte order and lexer flags the end of pass 1 left behind.
+  cpu_type               = 0;
+  memory.endian          = ENDIAN_LITTLE;
+  is_dollar_hex          = false;
+  strings_have_dots      = false;
+  strings_have_slashes   = false;
+  can_tick_end_string    = false;
+  pass_1_write_disable   = false;
+  ignore_number_postfix  = false;
+  numbers_dont_have_dots = false;
+  parse_directive        = nullptr;
+  link_function          = nullptr;
+  flags                  = 0;
+
   macros.reset();
   def_param_stack_count = 0;
 }
